@@ -303,6 +303,7 @@ def run(ctx):
                         acc = same_next and start_ok and coef_ok and lim_ok
     ctx.check(acc, 'R12.4', 'accept', step.where(0), step.path,
               'a step must be accepted only when its own transition cost from `starting` is within max_transition_cost', found=found, detail=found or '')
+    _cost_formula(ctx, prog, step)
     rec = [(bi, t) for bi, t in step.calls() if t['callee'].get('resolved') == step.path]
     ok = len(rec) == 2
     msg = 'expected two recursive calls (first half, second half)'
@@ -380,6 +381,77 @@ def _is_local_term(b, t, l):
         t = strip(t[2])
     tl = strip(b.term_local(l))
     return t == tl
+
+
+def _cost_formula(ctx, prog, step):
+    """R12.4: the cost the acceptance test relies on is sum_i |from[i] - to[i]| * coefficients[i] over all six joints, each joint
+    with its own coefficient (the continuity bound of the property is stated in this weighted metric)"""
+    from .. import algebra
+    costs = {t['callee'].get('resolved') for bi, t in step.calls() if cname(callee_name(t)).endswith('transition_costs')}
+    costs = [prog.bodies[p] for p in costs if p in prog.bodies]
+    if not ctx.check(len(costs) == 1, 'R12.4', 'cost-formula/helper', step.where(0), step.path, 'transition cost helper not found'):
+        return
+    cb = costs[0]
+    ctx.fn(cb)
+    rt = strip(cb.return_term())
+    elems = mir.subterms(rt, lambda x: x[0] == 'agg' and x[1] == 'array')
+    ok = False
+    found = show(rt, maxdepth=4)
+    if len(elems) == 1 and len(elems[0]) == 3:
+        E = elems[0][2]
+
+        def atomize(t):
+            return None
+        ring = algebra.Ring()
+        P = ring.nf(algebra.canon(E))
+        seen = {}
+        good = True
+        for k, v in P.m.items():
+            if float(v) != 1.0 or len(k) != 2 or any(p != 1 for a, p in k):
+                good = False
+                break
+            ab = [a for a, p in k if isinstance(a, tuple) and a[0] == 'call' and cname(a[1]) == 'f64::abs']
+            co = [a for a, p in k if isinstance(a, tuple) and a[0] == 'idx']
+            if len(ab) != 1 or len(co) != 1:
+                good = False
+                break
+            ci = util.const_val(co[0][2])
+            idxs = [util.const_val(x[2]) for x in _deep_idx(ab[0])]
+            pars = sorted(_deep_param(ab[0]))
+            if not (util.is_param(strip(co[0][1]), 3) and len(idxs) == 2 and idxs[0] == idxs[1] == ci and pars == [1, 2]):
+                good = False
+                break
+            seen[ci] = True
+        ok = good and sorted(seen) == [0, 1, 2, 3, 4, 5]
+        found = P.show(lambda a: show(a, maxdepth=3)) if not ok else found
+    ctx.check(ok, 'R12.4', 'cost-formula', cb.where(0), cb.path,
+              'the transition cost must be the sum over all six joints of |from[i] - to[i]| * coefficients[i], joint i with coefficient i', found=found, detail='sum_i |d_i| * c_i')
+
+
+def _deep_idx(t):
+    out = []
+
+    def f(x):
+        if isinstance(x, tuple):
+            if x and x[0] == 'idx' and len(x) == 3:
+                out.append(x)
+            for y in x:
+                f(y)
+    f(t)
+    return out
+
+
+def _deep_param(t):
+    out = set()
+
+    def f(x):
+        if isinstance(x, tuple):
+            if x and x[0] == 'param' and len(x) == 3 and isinstance(x[1], int):
+                out.add(x[1])
+            for y in x:
+                f(y)
+    f(t)
+    return out
 
 
 def _interp_role(prog):
